@@ -587,7 +587,24 @@ static void both_point (const pt_t *p)
 		if (memcmp (scratch[j], sym[j], (size_t) len)) { snprintf (sig, sizeof sig, "codec=%s|role=both|call=build|kind=differs-from-encoder-session|built=%d", cn, built); viol ("C06", sig); }
 	}
 	vf_stat_add (st_trans, nb);
-	/* now decode on the same session: every symbol but `lost` sources (the first `lost` ones) */
+	/* now decode on the same session: every symbol but `lost` sources (the first `lost` ones); lost = 9 (LDPC): the first
+	 * received set (in subset order) that peeling cannot finish but that determines all sources, so FINISH must solve */
+	if (lost == 9) {
+		bitmat *H = rfc5170_H (k, n, p->N1, (uint64_t) p->seed, NULL);
+		uint64_t S, pick = 0; int found = 0;
+		for (S = 0; S < ((uint64_t) 1 << n) && !found; S++) {
+			uint64_t k2 = S, known = S; int nu, rk, all = 1;
+			gf2_peel (H, &k2);
+			for (i = 0; i < k; i++) if (!((k2 >> i) & 1)) all = 0;
+			if (all) continue;
+			rk = gf2_rank_unknown (H, &known, &nu);
+			if (rk == nu) { pick = S; found = 1; }
+		}
+		bm_free (H);
+		if (!found) { of_release_codec_instance (s); for (i = 0; i < n; i++) free (scratch[i]); free (scratch); free (tab2); vf_outcome ("both:no-ml-only-set", 1); goto out; }
+		for (i = 0; i < n; i++) if ((pick >> i) & 1) if (of_decode_with_new_symbol (s, sym[i], (UINT32) i) != OF_STATUS_OK) { snprintf (sig, sizeof sig, "codec=%s|role=both|call=DWS|kind=status-not-ok", cn); viol ("C10", sig); break; }
+		lost = 0;	/* the set determines everything: the clauses below expect completion */
+	} else
 	for (i = lost; i < n; i++) if (of_decode_with_new_symbol (s, sym[i], (UINT32) i) != OF_STATUS_OK) { snprintf (sig, sizeof sig, "codec=%s|role=both|call=DWS|kind=status-not-ok", cn); viol ("C10", sig); break; }
 	{
 		int fst = -1, cpl, gst, nav = 0, allok = 1;
@@ -601,6 +618,7 @@ static void both_point (const pt_t *p)
 		if (fst >= 0 && ((fst == OF_STATUS_OK) != (cpl == 1) || (fst != OF_STATUS_OK && fst != OF_STATUS_FAILURE))) { snprintf (sig, sizeof sig, "codec=%s|role=both|call=FINISH|kind=status-%d-with-complete=%d", cn, fst, cpl); viol ("C10", sig); }
 		if (gst == OF_STATUS_OK) for (i = 0; i < k; i++) if (src[i] && memcmp (src[i], sym[i], (size_t) len)) { snprintf (sig, sizeof sig, "codec=%s|role=both|kind=wrong-source-symbol", cn); viol ("C01", sig); break; }
 		if (lost <= r && p->codec != 3 && !(cpl && allok)) { snprintf (sig, sizeof sig, "codec=%s|role=both|kind=not-complete-with-k-symbols", cn); viol ("C02", sig); }
+		if (p->codec == 3 && p->prefix == 9 && !(cpl && allok)) { snprintf (sig, sizeof sig, "codec=ldpc|role=both|call=FINISH|kind=%s|built=%d", cpl ? "recovered-with-wrong-values" : "recoverable-but-not-recovered", built); viol ("C03", sig); if (cpl) viol ("C01", sig); }
 	}
 	of_release_codec_instance (s);
 	for (i = 0; i < k; i++) { int own = 0; for (j = 0; j < n; j++) if (src[i] == sym[j]) own = 1; if (src[i] && !own) free (src[i]); }
@@ -771,7 +789,7 @@ int main (int argc, char **argv)
 		for (bv = 0; bv <= 4; bv++) {
 			for (codec = 1; codec <= 2; codec++) for (k = 1; k <= 6; k++) for (r = 1; r <= 4; r++) for (lost = 0; lost <= r && lost <= k; lost++) { add_pt (codec, 8, k, r, 0, 0, k + 3, lost); PT[NPT - 1].slotmode = 9 + bv; if (codec == 2) { add_pt (2, 4, k, r, 0, 0, k + 3, lost); PT[NPT - 1].slotmode = 9 + bv; } }
 			if (bv == 1 || bv == 4) continue;	/* LDPC needs the previous repair symbol: all / none / the first one only */
-			for (k = 2; k <= 8; k++) for (r = 3; r <= 6; r++) for (N1 = 3; N1 <= r && N1 <= 5; N1++) for (lost = 0; lost <= 2; lost++) { add_pt (3, 0, k, r, N1, 1 + (k + r) % 3, k + 3, lost); PT[NPT - 1].slotmode = 9 + bv; }
+			for (k = 2; k <= 8; k++) for (r = 3; r <= 6; r++) for (N1 = 3; N1 <= r && N1 <= 5; N1++) for (lost = 0; lost <= 3; lost++) { add_pt (3, 0, k, r, N1, 1 + (k + r) % 3, k + 3, lost == 3 ? 9 : lost); PT[NPT - 1].slotmode = 9 + bv; }
 		}
 	} else if (!strcmp (mode, "2d")) {
 		for (k = 0; k <= 17; k++) for (r = 0; r <= 26; r++) add_pt (5, 0, k, r, 0, 0, k + 2, 0);
